@@ -97,33 +97,36 @@ TypeOK ==
 
 Fits(b, v) == hb[b] + HdrLen[v] <= Len(mem[b])
 
-Do(b, o) ==
-  /\ Fits(b, o.view)
-  /\ LET r == Apply(mem[b], hb[b], o, Sentinel) IN
+\* apply o to buffer b whose current content is m (header at offset h)
+DoFrom(b, m, h, o) ==
+  /\ h + HdrLen[o.view] <= Len(m)
+  /\ \E r \in { Apply(m, h, o, Sentinel) } :      \* (singleton \E: evaluate Apply once)
        /\ mem'  = [mem EXCEPT ![b] = r.post]
+       /\ hb'   = [hb EXCEPT ![b] = h]
        /\ out'  = r.out
-       /\ step' = o @@
-                  [buf |-> b, base |-> hb[b], pre |-> mem[b], post |-> r.post,
-                   ret |-> r.ret, rc |-> r.rc, out |-> r.out]
-  /\ UNCHANGED hb
+       /\ step' = o @@ [buf |-> b, base |-> h, pre |-> m, post |-> r.post,
+                         ret |-> r.ret, rc |-> r.rc, out |-> r.out]
+
+Do(b, o) == DoFrom(b, mem[b], hb[b], o)
 
 (***************************************************************************)
 (* Properties of the machine (checked by TLC in the MC_* configurations).  *)
 (***************************************************************************)
 \* C02/T2 frame: a step changes no bit outside the field written / header initialised,
-\* and never another buffer.
+\* and never another buffer.  (`step'.pre` is the content the call started from.)
 FrameOK ==
   [][ /\ \A c \in Buf : c # step'.buf => mem'[c] = mem[c]
-      /\ LET b == step'.buf  h == hb[b] IN
-         \A i \in 1..Len(mem[b]) :
-            mem'[b][i] # mem[b][i] =>
-               /\ Touches(step')
-               /\ i > h /\ i <= h + HdrLen[step'.view]
-               /\ step'.op = "set" =>
-                    \E k \in 0..7 : LET p == 8*(i-1) + k - 8*h IN
-                        p >= FStart(step'.view, step'.field)
-                        /\ p < FStart(step'.view, step'.field) + FW(step'.view, step'.field)
-    ]_vars
+      /\ LET b == step'.buf  h == step'.base  m0 == step'.pre IN
+         /\ Len(mem'[b]) = Len(m0)
+         /\ \A i \in 1..Len(m0) :
+              mem'[b][i] # m0[i] =>
+                 /\ Touches(step')
+                 /\ i > h /\ i <= h + HdrLen[step'.view]
+                 /\ step'.op = "set" =>
+                      \E k \in 0..7 : LET p == 8*(i-1) + k - 8*h IN
+                          p >= FStart(step'.view, step'.field)
+                          /\ p < FStart(step'.view, step'.field) + FW(step'.view, step'.field)
+    ]_<<mem, step>>
 
 \* C02/T1 read-after-write: after a set, every path reads back the value modulo 2^w
 ReadBack ==
@@ -136,8 +139,8 @@ ReadBack ==
 OthersKept ==
   [][ step'.op = "set" =>
         \A n \in FieldNames(step'.view) \ {step'.field} :
-           GetSem(mem'[step'.buf], hb[step'.buf], step'.view, n)
-             = GetSem(mem[step'.buf], hb[step'.buf], step'.view, n) ]_vars
+           GetSem(mem'[step'.buf], step'.base, step'.view, n)
+             = GetSem(step'.pre, step'.base, step'.view, n) ]_<<mem, step>>
 
 \* C04/T5: after init the header is canonical, whatever it held; init is idempotent
 InitCanonical ==
@@ -153,5 +156,5 @@ InitCanonical ==
 
 \* C01: reads never modify memory;  C11: rejected calls never modify anything
 ReadOnlyOps ==
-  [][ ~Touches(step') => mem' = mem ]_vars
+  [][ ~Touches(step') => mem'[step'.buf] = step'.pre ]_<<mem, step>>
 =============================================================================
